@@ -240,7 +240,10 @@ CHECKS = {'C01': {'level': 'exploration',
                  'transaction in six without DeleteAt steps starts by narrowing its selection to nothing (WithValue(col, never) and Count) before '
                  'its point and key operations, which are independent of the selection | since round 10 the concurrent programs write one store in '
                  'four through column accessors at the cursor (txn.X(col).Set/Merge) and one committing transaction in four ends by obtaining an '
-                 'accessor that it only reads',
+                 'accessor that it only reads | TestC06BigCommit (round 10): the stream goes through a serialized commit.Log; ONE transaction stores '
+                 '18..30 strings of 50 000..65 535 bytes into rows of one block, so that its single commit is larger than the 1 MiB block of the s2 '
+                 'stream (the decoder gets it in pieces), with small transactions before and after; a replica that reads the log back (through a '
+                 'short-read reader) must hold exactly the generated values; non-trivial = the commit carried more than 1 MiB',
          'assumptions': ['the replica has the same schema (columns created at the same history points) and the same index definitions',
                          'comparison happens when the primary is quiescent'],
          'tests': [{'run': '^TestC06$',
@@ -270,7 +273,12 @@ CHECKS = {'C01': {'level': 'exploration',
                     'checks': {'quick': 400, 'thorough': 20000},
                     'shards': {'quick': 1, 'thorough': 8},
                     'timeout': {'quick': 900, 'thorough': 3400},
-                    'env': {'VERIF_PROP': 'C06', 'GOMAXPROCS': 1}}]},
+                    'env': {'VERIF_PROP': 'C06', 'GOMAXPROCS': 1}},
+                   {'run': '^TestC06BigCommit$',
+                    'checks': {'quick': 40, 'thorough': 2000},
+                    'shards': {'quick': 1, 'thorough': 4},
+                    'timeout': {'quick': 900, 'thorough': 3400},
+                    'env': {'GOMAXPROCS': 1}}]},
  'C07': {'level': 'exploration',
          'rule': 'model-based stateful histories over all column kinds (enum, bool, record, key, expire, late columns, custom merges), all Capacity '
                  'options, 0..3 blocks with patterned bulk deletes and offset reuse; action snapshotRestore (up to 3 per history): Snapshot to a '
